@@ -6,248 +6,13 @@ import (
 	"fmt"
 	"io"
 	"net/http"
-	"reflect"
 	"sort"
-	"strconv"
 	"strings"
 	"testing"
 	"time"
 
 	"verifharness/vlib"
-
-	"github.com/lesismal/nbio/mempool"
-	"github.com/lesismal/nbio/nbhttp"
-	"pgregory.net/rapid"
 )
-
-type Op struct {
-	K     string `json:"k"` // set, add, cl, trailerdecl, writeheader, write, writestring, flush, readfrom, settrailer
-	Key   string `json:"key,omitempty"`
-	Val   string `json:"val,omitempty"`
-	N     int    `json:"n,omitempty"`     // size or status code
-	Rel   bool   `json:"rel,omitempty"`   // size is relative to the 64 KiB threshold of the internal buffers
-	Delta int    `json:"delta,omitempty"` // threshold + delta
-	Fill  bool   `json:"fill,omitempty"`  // write whatever is missing to reach the explicit Content-Length
-}
-
-type Case struct {
-	Proto10 bool `json:"http10"`
-	Close   bool `json:"close"`      // Connection: close (1.1) / absence of keep-alive (1.0)
-	KeepAl  bool `json:"keep_alive"` // Connection: keep-alive on 1.0
-	Post    bool `json:"post"`
-	Ops     []Op `json:"ops"`
-	FailAt  int  `json:"fail_write_at,omitempty"` // for C11 reuse: the k-th conn.Write fails
-}
-
-var inline = func(f func()) { f() }
-
-var Tracker = vlib.NewTracker()
-
-func init() {
-	mempool.DefaultMemPool = Tracker
-}
-
-func pattern(op, n int) []byte {
-	b := make([]byte, n)
-	for i := range b {
-		b[i] = byte('a' + (op*7+i+(i>>9))%26)
-	}
-	if n > 0 {
-		b[0] = byte('A' + op%26)
-	}
-	return b
-}
-
-func bufLens(res http.ResponseWriter) (int, bool) {
-	v := reflect.ValueOf(res)
-	if v.Kind() != reflect.Ptr {
-		return 0, false
-	}
-	v = v.Elem()
-	total := 0
-	for _, name := range []string{"buffer", "bodyBuffer"} {
-		f := v.FieldByName(name)
-		if !f.IsValid() || f.Kind() != reflect.Ptr {
-			return 0, false
-		}
-		if !f.IsNil() {
-			total += f.Elem().Len()
-		}
-	}
-	return total, true
-}
-
-type exec struct {
-	status      int
-	committed   bool
-	body        []byte
-	writeErr    error
-	badReturn   string
-	hdrExpected http.Header
-	trailerDecl []string
-	trailerVals map[string]string
-	explicitCL  int
-	bodyOps     int
-	classes     map[string]bool
-}
-
-// Execute runs the program against the real parser/response writer. Exported for C11.
-func Execute(c Case, tracker *vlib.Tracker) (wire []byte, closed bool, ex *exec, panicked any) {
-	ex = &exec{status: 200, hdrExpected: http.Header{}, trailerVals: map[string]string{}, explicitCL: -1, classes: map[string]bool{}}
-	conn := &vlib.FakeConn{FailAt: c.FailAt}
-	handler := http.HandlerFunc(func(w http.ResponseWriter, r *http.Request) {
-		for i, op := range c.Ops {
-			switch op.K {
-			case "set":
-				w.Header().Set(op.Key, op.Val)
-				ex.hdrExpected.Set(op.Key, op.Val)
-			case "add":
-				w.Header().Add(op.Key, op.Val)
-				ex.hdrExpected.Add(op.Key, op.Val)
-			case "cl":
-				w.Header().Set("Content-Length", strconv.Itoa(op.N))
-				ex.explicitCL = op.N
-			case "trailerdecl":
-				w.Header().Add("Trailer", op.Key)
-				ex.trailerDecl = append(ex.trailerDecl, op.Key)
-			case "settrailer":
-				w.Header().Set(op.Key, op.Val)
-				ex.trailerVals[op.Key] = op.Val
-				if ex.committed {
-					ex.classes["trailer-set-after-commit"] = true
-				}
-			case "writeheader":
-				w.WriteHeader(op.N)
-				if !ex.committed {
-					ex.status = op.N
-					ex.committed = true
-				}
-			case "flush":
-				w.(http.Flusher).Flush()
-				ex.committed = true
-				if len(ex.body) > 0 {
-					ex.classes["flush-mid-body"] = true
-				}
-			case "write", "writestring":
-				n := op.N
-				if op.Fill {
-					n = ex.explicitCL - len(ex.body)
-					if n < 0 {
-						n = 0
-					}
-				}
-				if op.Rel {
-					if have, ok := bufLens(w); ok {
-						n = 65536 + op.Delta - have
-						if !ex.committed {
-							// the head is not encoded yet; aim at the body buffer alone
-							n = 65536 + op.Delta
-						}
-						if n < 0 {
-							n = 1
-						}
-						ex.classes["threshold-relative"] = true
-					} else {
-						n = 65536 + op.Delta
-					}
-				}
-				data := pattern(i, n)
-				var wn int
-				var err error
-				if op.K == "write" {
-					wn, err = w.Write(data)
-				} else {
-					wn, err = io.WriteString(w, string(data))
-				}
-				ex.committed = true
-				if err != nil {
-					if ex.writeErr == nil {
-						ex.writeErr = err
-					}
-					continue
-				}
-				if wn != len(data) && ex.badReturn == "" {
-					ex.badReturn = fmt.Sprintf("op %d: %s of %d bytes returned (%d, nil)", i, op.K, len(data), wn)
-				}
-				ex.body = append(ex.body, data...)
-				if n > 0 {
-					ex.bodyOps++
-				}
-			case "readfrom":
-				data := pattern(i, op.N)
-				lr := &io.LimitedReader{R: bytes.NewReader(append(data, "EXTRA-NOT-TO-BE-SENT"...)), N: int64(op.N)}
-				rf, ok := w.(io.ReaderFrom)
-				var wn int64
-				var err error
-				if ok {
-					wn, err = rf.ReadFrom(lr)
-				} else {
-					wn, err = io.Copy(w, lr)
-				}
-				ex.committed = true
-				if err != nil {
-					if ex.writeErr == nil {
-						ex.writeErr = err
-					}
-					continue
-				}
-				if wn != int64(op.N) && ex.badReturn == "" {
-					ex.badReturn = fmt.Sprintf("op %d: ReadFrom of %d bytes returned (%d, nil)", i, op.N, wn)
-				}
-				ex.body = append(ex.body, data...)
-				if op.N > 0 {
-					ex.bodyOps++
-				}
-				ex.classes["readfrom"] = true
-			}
-		}
-	})
-	engine := nbhttp.NewEngine(nbhttp.Config{ServerExecutor: inline, ClientExecutor: inline, SupportServerOnly: true, Handler: handler, BodyAllocator: tracker})
-	p := nbhttp.NewParser(conn, engine, nbhttp.NewServerProcessor(), false, nil)
-	defer func() {
-		if r := recover(); r != nil {
-			panicked = r
-		}
-		p.CloseAndClean(nil)
-		wire = conn.Bytes()
-		closed = conn.IsClosed()
-	}()
-	if err := p.Parse(requestBytes(c)); err != nil {
-		panicked = fmt.Sprintf("harness: request rejected: %v", err)
-	}
-	return
-}
-
-func requestBytes(c Case) []byte {
-	var sb strings.Builder
-	method := "GET"
-	if c.Post {
-		method = "POST"
-	}
-	proto := "HTTP/1.1"
-	if c.Proto10 {
-		proto = "HTTP/1.0"
-	}
-	fmt.Fprintf(&sb, "%s /x %s\r\nHost: h\r\n", method, proto)
-	if c.Proto10 && c.KeepAl {
-		sb.WriteString("Connection: keep-alive\r\n")
-	} else if !c.Proto10 && c.Close {
-		sb.WriteString("Connection: close\r\n")
-	}
-	if c.Post {
-		sb.WriteString("Content-Length: 3\r\n\r\nabc")
-	} else {
-		sb.WriteString("\r\n")
-	}
-	return []byte(sb.String())
-}
-
-func wantClose(c Case) bool {
-	if c.Proto10 {
-		return !c.KeepAl
-	}
-	return c.Close
-}
 
 func hdrString(h http.Header) string {
 	keys := make([]string, 0, len(h))
@@ -401,131 +166,6 @@ func runCaseInner(c Case) vlib.Result {
 		res.Classes = append(res.Classes, "body>=64KiB")
 	}
 	return res
-}
-
-// ---------- generator ----------
-
-var codes = []int{200, 200, 200, 201, 202, 206, 299, 301, 302, 400, 404, 418, 499, 500, 503, 599, 600, 799, 999}
-
-func genSize(t *rapid.T) (n int, rel bool, delta int) {
-	switch rapid.IntRange(0, 11).Draw(t, "szcls") {
-	case 0:
-		return 0, false, 0
-	case 1:
-		return 1, false, 0
-	case 2, 3, 4:
-		return rapid.IntRange(2, 300).Draw(t, "small"), false, 0
-	case 5:
-		return 32768 + rapid.IntRange(-1, 1).Draw(t, "d32"), false, 0
-	case 6:
-		return 65536 + rapid.IntRange(-2, 2).Draw(t, "d64"), false, 0
-	case 7:
-		return rapid.IntRange(60000, 70000).Draw(t, "near64"), false, 0
-	case 8:
-		return rapid.IntRange(100000, 400000).Draw(t, "big"), false, 0
-	case 9, 10:
-		return 0, true, rapid.IntRange(-2, 2).Draw(t, "delta")
-	default:
-		return rapid.IntRange(300, 20000).Draw(t, "mid"), false, 0
-	}
-}
-
-func Gen(t *rapid.T) Case {
-	c := Case{Proto10: rapid.IntRange(0, 3).Draw(t, "http10") == 0, Post: rapid.Bool().Draw(t, "post")}
-	if c.Proto10 {
-		c.KeepAl = rapid.Bool().Draw(t, "keepalive")
-	} else {
-		c.Close = rapid.IntRange(0, 2).Draw(t, "close") == 0
-	}
-	// plan body operations first so that an explicit Content-Length can equal the total
-	nbody := rapid.IntRange(0, 5).Draw(t, "nbody")
-	var bodyOps []Op
-	total := 0
-	relUsed := false
-	for i := 0; i < nbody; i++ {
-		kind := rapid.SampledFrom([]string{"write", "write", "write", "writestring", "readfrom"}).Draw(t, "bodykind")
-		n, rel, delta := genSize(t)
-		if kind == "readfrom" {
-			if rel {
-				rel, n = false, 65536+delta
-			}
-			if n > 200000 {
-				n = 200000
-			}
-		}
-		if rel {
-			relUsed = true
-		}
-		bodyOps = append(bodyOps, Op{K: kind, N: n, Rel: rel, Delta: delta})
-		total += n
-	}
-	explicitCL := rapid.IntRange(0, 2).Draw(t, "explicitcl") == 0
-	if explicitCL && relUsed {
-		// the relative sizes are only known at run time: declare a total that is surely larger and
-		// let a final write fill the remainder
-		for i := range bodyOps {
-			if bodyOps[i].Rel {
-				total += 65536 + 2
-			}
-			if bodyOps[i].K == "readfrom" {
-				bodyOps[i].K = "write"
-			}
-		}
-		total += rapid.IntRange(0, 3).Draw(t, "fillextra")
-		bodyOps = append(bodyOps, Op{K: "write", Fill: true})
-	}
-	code := 0
-	if rapid.IntRange(0, 2).Draw(t, "callwriteheader") == 0 {
-		code = rapid.SampledFrom(codes).Draw(t, "code")
-		if nbody == 0 && rapid.IntRange(0, 4).Draw(t, "nobodycode") == 0 {
-			code = rapid.SampledFrom([]int{204, 304}).Draw(t, "code204")
-		}
-	}
-	trailers := !c.Proto10 && !explicitCL && code != 204 && code != 304 && rapid.IntRange(0, 3).Draw(t, "trailers") == 0
-	var ops []Op
-	nh := rapid.IntRange(0, 3).Draw(t, "nhdr")
-	for i := 0; i < nh; i++ {
-		k := "X-H" + strconv.Itoa(rapid.IntRange(0, 3).Draw(t, "hk"))
-		ops = append(ops, Op{K: rapid.SampledFrom([]string{"set", "add"}).Draw(t, "hop"), Key: k, Val: "v" + strconv.Itoa(i)})
-	}
-	if rapid.IntRange(0, 3).Draw(t, "ctype") == 0 {
-		ops = append(ops, Op{K: "set", Key: "Content-Type", Val: "application/octet-stream"})
-	}
-	if explicitCL {
-		ops = append(ops, Op{K: "cl", N: total})
-	}
-	var tnames []string
-	if trailers {
-		n := rapid.IntRange(1, 2).Draw(t, "ntrailers")
-		for i := 0; i < n; i++ {
-			name := "X-Trailer-" + strconv.Itoa(i)
-			tnames = append(tnames, name)
-			ops = append(ops, Op{K: "trailerdecl", Key: name})
-			if rapid.Bool().Draw(t, "trailer_before") {
-				ops = append(ops, Op{K: "settrailer", Key: name, Val: "early" + strconv.Itoa(i)})
-			}
-		}
-	}
-	if code != 0 {
-		ops = append(ops, Op{K: "writeheader", N: code})
-	}
-	for i, bo := range bodyOps {
-		if rapid.IntRange(0, 5).Draw(t, "flush") == 0 {
-			ops = append(ops, Op{K: "flush"})
-		}
-		ops = append(ops, bo)
-		_ = i
-	}
-	if rapid.IntRange(0, 6).Draw(t, "flushend") == 0 {
-		ops = append(ops, Op{K: "flush"})
-	}
-	for i, name := range tnames {
-		if rapid.Bool().Draw(t, "trailer_after") {
-			ops = append(ops, Op{K: "settrailer", Key: name, Val: "late" + strconv.Itoa(i)})
-		}
-	}
-	c.Ops = ops
-	return c
 }
 
 func TestCheck(t *testing.T) {
